@@ -40,40 +40,77 @@ def base(dst):
     r = subprocess.run(f"git -C {repo} archive HEAD | tar -x -C {dst}", shell=True, capture_output=True)
     if r.returncode != 0:
         subprocess.run(f"rsync -a --exclude .git {repo}/ {dst}/", shell=True)
-def one(e):
-    d = os.path.join(scratch, e['id'])
+# The analysis of one patched tree is the same for every property: it is run once for all properties and the
+# non-discharged obligations are cached under /verif/.cache (key: analyser binary, repository HEAD + working-tree
+# diff, known findings, patch). The cache only saves time - a missing or stale entry is recomputed.
+import hashlib
+def _h(*parts):
+    m = hashlib.sha256()
+    for p in parts:
+        m.update(p if isinstance(p, bytes) else str(p).encode())
+        m.update(b'\0')
+    return m.hexdigest()
+def _file(p):
+    try:
+        return open(p, 'rb').read()
+    except OSError:
+        return b''
+_head = subprocess.run(f"git -C {repo} rev-parse HEAD", shell=True, capture_output=True, text=True).stdout.strip()
+_state = _h(_file(binp), _head, _file(os.path.join(verif, 'known_findings.json')))
+cache_dir = os.path.join(verif, '.cache', 'selftest')
+os.makedirs(cache_dir, exist_ok=True)
+def analyse(tag, patch):
+    """-> ('skipped', why) | ('failed', None) | ('ok', [ {property, rule, key} ... ])  (non-discharged, not known)"""
+    key = _h(_state, _file(patch))
+    cf = os.path.join(cache_dir, key + '.json')
+    if os.path.exists(cf):
+        try:
+            c = json.load(open(cf))
+            return c['status'], c['data']
+        except Exception:
+            pass
+    d = os.path.join(scratch, tag)
     try:
         base(d)
-        r = subprocess.run(['git', 'apply', os.path.join(verif, e['patch'])], cwd=d, capture_output=True, text=True)
+        r = subprocess.run(['git', 'apply', patch], cwd=d, capture_output=True, text=True)
         if r.returncode != 0:
-            return {'id': e['id'], 'status': 'skipped', 'why': 'patch does not apply to HEAD: ' + r.stderr.strip()[:200]}
-        dump = os.path.join(scratch, e['id'] + '.obs.json')
-        subprocess.run([binp, '-repo', d, '-prop', prop, '-known', os.path.join(verif, 'known_findings.json'), '-dump', dump], capture_output=True, text=True)
-        obs = json.load(open(dump)) if os.path.exists(dump) else []
-        fired = sorted({o['rule'] for o in obs if o['status'] != 'discharged' and not o.get('known_finding') and o['property'] == prop})
-        want = e['expect'][prop]
-        ok = any(w in fired for w in want)
-        return {'id': e['id'], 'status': 'detected' if ok else 'MISSED', 'expected_rules': want, 'fired_rules': fired, 'breaks': e.get('what', '')}
+            res = ('skipped', 'patch does not apply to HEAD: ' + r.stderr.strip()[:200])
+        else:
+            dump = os.path.join(scratch, tag + '.obs.json')
+            subprocess.run([binp, '-repo', d, '-prop', 'all', '-known', os.path.join(verif, 'known_findings.json'), '-dump', dump], capture_output=True, text=True)
+            if not os.path.exists(dump):
+                res = ('failed', None)
+            else:
+                obs = json.load(open(dump))
+                res = ('ok', sorted(({'property': o['property'], 'rule': o['rule'], 'key': o['key']} for o in obs if o['status'] != 'discharged' and not o.get('known_finding')), key=lambda x: (x['property'], x['rule'], x['key'])))
+                os.remove(dump)
+        try:
+            tmpf = cf + '.%d.tmp' % os.getpid()
+            json.dump({'status': res[0], 'data': res[1]}, open(tmpf, 'w'))
+            os.replace(tmpf, cf)
+        except OSError:
+            pass
+        return res
     finally:
         shutil.rmtree(d, ignore_errors=True)
+def one(e):
+    st, data = analyse(e['id'], os.path.join(verif, e['patch']))
+    if st == 'skipped':
+        return {'id': e['id'], 'status': 'skipped', 'why': data}
+    fired = sorted({o['rule'] for o in (data or []) if o['property'] == prop})
+    want = e['expect'][prop]
+    ok = any(w in fired for w in want)
+    return {'id': e['id'], 'status': 'detected' if ok else 'MISSED', 'expected_rules': want, 'fired_rules': fired, 'breaks': e.get('what', '')}
 # silence test: behaviour-preserving rewrites (refactors/<id>/patch.diff, written by independent sub-agents and
 # confirmed against the full suite) must not make this property's check fire
 def quiet(rid):
-    d = os.path.join(scratch, 'rf_' + rid)
-    try:
-        base(d)
-        r = subprocess.run(['git', 'apply', os.path.join(verif, 'refactors', rid, 'patch.diff')], cwd=d, capture_output=True, text=True)
-        if r.returncode != 0:
-            return {'id': rid, 'status': 'skipped', 'why': 'patch does not apply to HEAD: ' + r.stderr.strip()[:200]}
-        dump = os.path.join(scratch, 'rf_' + rid + '.obs.json')
-        subprocess.run([binp, '-repo', d, '-prop', prop, '-known', os.path.join(verif, 'known_findings.json'), '-dump', dump], capture_output=True, text=True)
-        if not os.path.exists(dump):
-            return {'id': rid, 'status': 'ALARM', 'fired': ['analyser could not load the rewritten tree']}
-        obs = json.load(open(dump))
-        fired = sorted({o['rule'] + ' ' + o['key'] for o in obs if o['status'] != 'discharged' and not o.get('known_finding') and o['property'] == prop})
-        return {'id': rid, 'status': 'ALARM' if fired else 'silent', 'fired': fired}
-    finally:
-        shutil.rmtree(d, ignore_errors=True)
+    st, data = analyse('rf_' + rid, os.path.join(verif, 'refactors', rid, 'patch.diff'))
+    if st == 'skipped':
+        return {'id': rid, 'status': 'skipped', 'why': data}
+    if st == 'failed':
+        return {'id': rid, 'status': 'ALARM', 'fired': ['analyser could not load the rewritten tree']}
+    fired = sorted({o['rule'] + ' ' + o['key'] for o in data if o['property'] == prop})
+    return {'id': rid, 'status': 'ALARM' if fired else 'silent', 'fired': fired}
 rdir = os.path.join(verif, 'refactors')
 rids = sorted(x for x in os.listdir(rdir) if os.path.exists(os.path.join(rdir, x, 'patch.diff'))) if os.path.isdir(rdir) else []
 with concurrent.futures.ThreadPoolExecutor(max_workers=6) as ex:
